@@ -1,0 +1,32 @@
+//go:build verif
+
+// Contracts for package x25 (comment-only; read by /verif/govc, never compiled
+// into the library).  Oracle: specCrcStep / crcFold in /verif/spec.
+
+package x25
+
+//@ func New
+//@   ensures res != nil && freshPtr(res) && res.crc == 0xFFFF
+//@   canary  res.crc == 0
+//@   modifies nothing
+
+//@ func (*X25).Reset
+//@   requires x != nil
+//@   ensures  x.crc == 0xFFFF
+//@   modifies x.crc
+
+//@ func (*X25).Sum16
+//@   requires x != nil
+//@   ensures  res == x.crc
+//@   modifies nothing
+
+//@ func (*X25).Write
+//@   requires x != nil
+//@   ensures  x.crc == crcFold(old(x.crc), p, len(p))
+//@   canary   x.crc == old(x.crc)
+//@   modifies x.crc
+//@   loop 0 bind i int = rangeindex
+//@   loop 0 invariant -1 <= i && i < len(p)
+//@   loop 0 invariant x.crc == crcFold(old(x.crc), p, i+1)
+//@   loop 0 modifies x.crc
+//@   loop 0 decreases len(p) - i
